@@ -383,6 +383,12 @@ func init() {
 	g("Int32", func(fr *frame, a []value) value { return E.apiScalar("int", a[0].(string), 32) })
 	g("Byte", func(fr *frame, a []value) value { return E.apiScalar("uint", a[0].(string), 8) })
 	g("Bool", func(fr *frame, a []value) value { return E.apiScalar("bool", a[0].(string), 0) })
+	g("Float64", func(fr *frame, a []value) value {
+		// every bit pattern (NaNs, infinities, subnormals): a 64-bit vector reinterpreted as IEEE double
+		b := E.fresh(a[0].(string), 64)
+		E.api = append(E.api, APIEvent{Kind: "f64", Name: a[0].(string), Bits: 64, terms: []string{b.name}})
+		return E.mkf(64, fmt.Sprintf("((_ to_fp 11 53) %s)", b.name))
+	})
 	g("IntRange", func(fr *frame, a []value) value {
 		s := E.apiScalar("int", a[0].(string), 64)
 		E.Assume(E.symBinop(token.GEQ, tInt, s, a[1]))
